@@ -282,9 +282,7 @@ pub fn eval_run(req: &str, a_s: &str) -> Case {
             }
         }
         Some((s, e)) => {
-            if members.is_empty() {
-                set("bounding_range Some for the empty range".into());
-            }
+            // (the property does not require `None` for the empty range, only `None` ⇒ empty)
             let bs = (s.cloned(), e.cloned());
             for &g in &members {
                 if !seg_contains(&bs, g) {
@@ -353,9 +351,7 @@ pub fn eval_rvs(req: &str, a_s: &str, vs_s: &str) -> Case {
     if (a.as_singleton().is_some() || !any_match) && si != a {
         set("simplify must return the original (singleton / nothing matches)".into());
     }
-    if !segs_wf(&ssi) {
-        set("simplify result not canonical".into());
-    }
+    // (canonicity of the result is not part of the property; the mirror compares the exact result)
     let mut tags = vec![];
     let bv = bound_values(&sa);
     if vs.iter().any(|v| bv.contains(v)) {
